@@ -37,13 +37,13 @@ var (
 var firstCase string
 
 type caseOut struct {
-	Case    string   `json:"case"`
-	Label   string   `json:"label"`
-	NT      bool     `json:"nt"`
-	Fails   []failure2 `json:"fails"`
-	Steps   int      `json:"steps"`
-	Hang    bool     `json:"hang"`
-	Stats   map[string]int `json:"stats"`
+	Case  string         `json:"case"`
+	Label string         `json:"label"`
+	NT    bool           `json:"nt"`
+	Fails []failure2     `json:"fails"`
+	Steps int            `json:"steps"`
+	Hang  bool           `json:"hang"`
+	Stats map[string]int `json:"stats"`
 }
 type failure2 struct{ Key, What string }
 
@@ -54,11 +54,11 @@ func caseRng(seed uint64, idx int) *prng.R {
 // ---------------------------------------------------------------- random schedules
 
 type profile struct {
-	name       string
-	midFault   bool // inject the fault somewhere in the middle
-	wFlush     int  // weight of flush actions
-	wDup       int
-	steps      int
+	name     string
+	midFault bool // inject the fault somewhere in the middle
+	wFlush   int  // weight of flush actions
+	wDup     int
+	steps    int
 }
 
 func (r *runner) unprocessed() int {
@@ -149,7 +149,7 @@ func (r *runner) randomStep(p profile, allowFault bool) {
 			})
 		}
 		add(1+p.wFlush/3, func() { r.sendOn(r.freeTag(), true, uint16(g.Intn(30))) }) // mostly unknown oldtag
-		add(1, func() { t := r.freeTag(); r.sendOn(t, true, t) })                      // flush naming its own tag
+		add(1, func() { t := r.freeTag(); r.sendOn(t, true, t) })                     // flush naming its own tag
 		// reuse the tag of a flushed request whose handler is still running
 		var reusable []*req
 		for _, q := range run {
@@ -173,6 +173,13 @@ func (r *runner) randomStep(p profile, allowFault bool) {
 			r.finish(q, r.w.byRid[q.rid].ctx.Err() != nil && g.Bool())
 		})
 	}
+	if !r.readFailed() {
+		// a read time-out / temporary error: the server must carry on as if nothing had happened
+		add(2, func() {
+			k := g.Intn(3)
+			r.readNetErr(k != 2, k != 1, 1+g.Intn(3))
+		})
+	}
 	if wp {
 		add(14, r.wok)
 		if allowFault {
@@ -183,6 +190,7 @@ func (r *runner) randomStep(p profile, allowFault bool) {
 	if allowFault {
 		if !r.readFailed() {
 			add(1, func() { r.connerr(g.Bool()) })
+			add(1, func() { r.readNetErr(false, false, 1) })
 			add(1, func() { // the fault strikes in the middle of a frame (any byte offset)
 				fb := frameBytes(r.freeTag(), r.newRequestMsg(100000+len(r.steps)))
 				r.w.cn.feed(fb[:1+g.Intn(len(fb)-1)])
@@ -250,11 +258,16 @@ func (r *runner) finishRun() {
 	r.drain()
 	if !r.faulted && !r.hang {
 		r.checkAnswered()
-		k := r.rng.Intn(3)
+		k := r.rng.Intn(4)
 		if r.shutdownEOF {
 			k = 1
 		}
+		if r.shutdownNetErr {
+			k = 3
+		}
 		switch k {
+		case 3:
+			r.readNetErr(false, false, 1)
 		case 0:
 			r.ctxCancel()
 		case 1:
@@ -386,6 +399,32 @@ func longDistances(thorough bool) []int {
 	return out
 }
 
+// Read errors that are net.Errors: the three kinds conn.read retries (time-out and/or temporary), once and
+// several times in a row, each followed by a request that must be read, dispatched and answered as if
+// nothing had happened; finally the kind that reports neither, which must shut the connection down.
+func runReadRetry(rng *prng.R, sess bool) *runner {
+	r := start(rng, rng.Bool(), nil, sess)
+	r.profile = "read-neterr"
+	r.maxDepth = 32
+	r.shutdownNetErr = true
+	for _, k := range perm(rng, 6) {
+		if r.hang {
+			break
+		}
+		r.sendOn(r.freeTag(), false, 0)
+		r.readNetErr(k%3 != 2, k%3 != 1, 1+2*(k/3))
+		r.sendOn(r.freeTag(), false, 0)
+		if run := r.running(); len(run) > 0 && rng.Bool() {
+			r.finish(run[rng.Intn(len(run))], false)
+		}
+		for r.gated && r.w.cn.writePending() && rng.Bool() {
+			r.wok()
+		}
+	}
+	r.finishRun()
+	return r
+}
+
 // ---------------------------------------------------------------- child
 
 func runCase(seed uint64, idx int, prop string, thorough bool) caseOut {
@@ -409,6 +448,8 @@ func runCase(seed uint64, idx int, prop string, thorough bool) caseOut {
 		r = runSessAllKindsFault(rng, idx%4)
 	case prop == "C11" && idx >= 2 && idx%4 == 2:
 		r = runFS(rng, idx == 2)
+	case (prop == "C06" && (idx == 14 || idx == 15)) || (prop == "C11" && (idx == 13 || idx == 15)):
+		r = runReadRetry(rng, idx == 15)
 	case prop == "C07" && idx >= 8 && idx-8 < len(longDistances(thorough)):
 		r = runLongCollision(rng, longDistances(thorough)[idx-8], 16)
 	case idx == 1 || (idx < 6 && prop == "C07"):
@@ -449,6 +490,11 @@ func childMain(seed uint64, tier string) {
 		b, _ := json.Marshal(co)
 		fmt.Fprintf(w, "C %s\n", b)
 		w.Flush()
+		if co.Hang {
+			// a goroutine of the code under test is spinning or stuck: this process cannot become
+			// quiescent any more; the parent continues with a fresh child
+			os.Exit(3)
+		}
 	}
 	fmt.Fprintln(w, "D")
 	w.Flush()
@@ -565,6 +611,9 @@ func runChild(r *rep.Report, prop string, from, n int, totals map[string]int) (i
 		r.Fail("c11.child-hang", "the child process running the schedule made no progress for 180 s", sx.Sym(fmt.Sprintf("(case-index %d)", cur)),
 			map[string]interface{}{"case_index": cur, "stderr": stderr.String()})
 		return cur + 1, "hang"
+	}
+	if ee, ok := err.(*exec.ExitError); ok && ee.ExitCode() == 3 {
+		return cur + 1, "" // the case that did not become quiescent has reported itself
 	}
 	if err != nil {
 		key := "c11.process-crash"
